@@ -55,6 +55,9 @@ fn main() {
             }
         }
     }
+    if id == "C17" && args.get(1).map(|s| s.as_str()) == Some("--giant-buffer") {
+        std::process::exit(props::c17::giant_buffer_main());
+    }
     if id == "seeds" {
         let d = format!("{}/fuzz/seeds", vharness::runner::verif_dir());
         vharness::seeds::write_all(args.get(1).map(|s| s.as_str()).unwrap_or(&d));
